@@ -26,7 +26,37 @@ import sys
 
 from .common import Check, PY, REPO, VERIF
 
-MUT = ("list", "set", "dict", "inst", "bytearray", "deque")
+MUT = ("list", "set", "dict", "inst", "bytearray", "deque", "SL", "SS", "SD", "SQ")
+# instances of user subclasses of the builtin containers (kind names used in descriptors and labelled trees)
+SUBKIND = {"SL": "list", "ST": "tuple", "SS": "set", "SF": "fset", "SD": "dict", "SQ": "deque", "NT": "tuple"}
+_SUBCLS = {}
+
+
+def subclasses():
+    if not _SUBCLS:
+        import collections
+
+        class SL(list):
+            pass
+
+        class ST(tuple):
+            pass
+
+        class SS(set):
+            pass
+
+        class SF(frozenset):
+            pass
+
+        class SD(dict):
+            pass
+
+        class SQ(collections.deque):
+            pass
+
+        NT = collections.namedtuple("NT", "x y")
+        _SUBCLS.update(SL=SL, ST=ST, SS=SS, SF=SF, SD=SD, SQ=SQ, NT=NT)
+    return _SUBCLS
 SEQK = ("list", "tuple", "set", "fset")
 
 
@@ -67,6 +97,12 @@ def build(v, tags, roots=None):
     elif k == "deque":
         import collections
         o = collections.deque(items)
+    elif k == "SD":
+        o = subclasses()["SD"](zip(v["keys"], items))
+    elif k == "NT":
+        o = subclasses()["NT"](*items)
+    elif k in SUBKIND:
+        o = subclasses()[k](items)
     else:
         raise ValueError("bad kind " + str(k))
     if "tag" in v:
@@ -95,6 +131,14 @@ def children(o, env=None):
         return "bytearray", [], list(o)
     if t.__name__ == "deque":
         return "deque", [], list(o)
+    for name, c in _SUBCLS.items():
+        if t is c:
+            if name == "SD":
+                ks = sorted(o, key=str)
+                return "SD", [str(k) for k in ks], [o[k] for k in ks]
+            if name in ("SS", "SF"):
+                return name, [], sorted(o, key=_skey_obj)
+            return name, [], list(o)
     if t is dict:
         ks = sorted(o, key=str)
         return "dict", [str(k) for k in ks], [o[k] for k in ks]
@@ -150,7 +194,7 @@ def observe(objs):
         mutable = kind.split(":")[0] in MUT
         me = lab(o) if mutable else None
         items = [go(x, depth + 1) for x in ch]
-        if kind in ("set", "fset"):
+        if kind in ("set", "fset", "SS", "SF"):
             items = sorted(items, key=_skey)       # elements are hashable: no labels inside, order by value
         return {"k": kind, "id": me, "keys": keys, "items": items}
 
@@ -240,12 +284,29 @@ class Program:
         self.hold = []
         self.tags = {}
         self.names = [f"K{self.uid}_{k}" for k in range(len(env))]
+        self.fpool = None
+        self.ropts = {}
         for k, decl in enumerate(env):
             if only_decls is not None:
                 if k in only_decls:
                     self.declare(k)       # a replay declares what the parse needs, late or not, and nothing else
             elif not decl.get("late"):
                 self.declare(k)
+        # `force_default` objects of the running-options pool: built once, like any declared default
+        self.fpool = [build(v, self.tags) for v in case.get("fpool", [])]
+        if only_decls is None:
+            self.defaults += self.fpool
+
+    def running_options(self, ropt):
+        """the Options object for a running-options descriptor — one object per descriptor, re-used by later parses"""
+        from utype import Options
+        key = json.dumps(ropt, sort_keys=True)
+        if key not in self.ropts:
+            kw = dict(ropt)
+            if "force_ref" in kw:
+                kw["force_default"] = self.fpool[kw.pop("force_ref")]
+            self.ropts[key] = Options(**kw)
+        return self.ropts[key]
 
     def mk_type(self, ty, cur):
         import collections
@@ -411,8 +472,7 @@ class Program:
             return self.hold[-1]
         cls = self.classes[k]
         if op.get("ropt") is not None:     # running options for this one parse
-            from utype import Options
-            return cls.__from__(inp, Options(**op["ropt"]))
+            return cls.__from__(inp, self.running_options(op["ropt"]))
         if style == "poskw":           # input is the pair (positional dict, keyword arguments)
             return cls(inp[0], **inp[1])
         if style == "pos":
@@ -469,13 +529,16 @@ def run_program(case, only_last=False, only_wrapper=None, only_op=None, post=Non
                     if isinstance(o, _Attrs):
                         o = None             # an instance's own __dict__ is only written through setattr
                     act, val = op["act"], op["val"]
-                    if act == "append" and type(o) is list:
+                    sub = tuple(subclasses().values())
+                    if isinstance(o, sub) and not isinstance(o, (list, set, dict)):
+                        o = None
+                    if act == "append" and isinstance(o, list):
                         o.append(val)
                         outs.append("ok")
-                    elif act == "add" and type(o) is set:
+                    elif act == "add" and isinstance(o, set):
                         o.add(val)
                         outs.append("ok")
-                    elif act == "setkey" and type(o) is dict:
+                    elif act == "setkey" and isinstance(o, dict) and type(o).__name__ in ("dict", "SD"):
                         o[op.get("key", "zz")] = val
                         outs.append("ok")
                     else:
@@ -591,9 +654,9 @@ def in_scope_ids(t, acc=None, with_inst=False):
         acc = set()
     if isinstance(t, dict):
         k = t["k"].split(":")[0]
-        if k in ("bytearray", "deque", "other"):
+        if k in ("bytearray", "deque", "other", "SQ"):
             return acc
-        if t.get("id") is not None and (k in ("list", "set", "dict") or with_inst and k == "inst"):
+        if t.get("id") is not None and (k in ("list", "set", "dict", "SL", "SS", "SD") or with_inst and k == "inst"):
             acc.add(t["id"])
         for x in t.get("items", []):
             in_scope_ids(x, acc, with_inst)
@@ -670,13 +733,19 @@ def spec_check(case, io):
     # (d) declared defaults keep their declared value
     want = []
     tags = {}
-    declared = [k for k, d in enumerate(case["env"]) if not d.get("late")] + \
-        [op["decl"] for op in case["ops"] if op["op"] == "declare"]
-    for k in declared:
+    def decl_defaults(k):
         for f in case["env"][k]["fields"]:
             d = f.get("default")
             if d and d.get("how", "val") in ("val", "shared"):
                 want.append(erase(observe([build(d["val"], tags)])[0]))
+    for k, d in enumerate(case["env"]):
+        if not d.get("late"):
+            decl_defaults(k)
+    for v in case.get("fpool", []):
+        want.append(erase(observe([build(v, tags)])[0]))
+    for op in case["ops"]:
+        if op["op"] == "declare":
+            decl_defaults(op["decl"])
     got = [erase(d) for d in io["defaults"]]
     if got != want:
         return "(d) a declared default object changed value during the history"
@@ -710,7 +779,7 @@ def canon_model(trees):
         k = t["k"]
         base = k.split(":")[0]
         keys, items = list(t.get("keys", [])), list(t.get("items", []))
-        if base == "dict":
+        if base in ("dict", "SD"):
             order = sorted(range(len(keys)), key=lambda i: keys[i])
             keys, items = [keys[i] for i in order], [items[i] for i in order]
         elif base == "inst":
@@ -722,7 +791,7 @@ def canon_model(trees):
                 labels[t["id"]] = len(labels)
             lab = labels[t["id"]]
         out = [go(x) for x in items]
-        if base in ("set", "fset"):
+        if base in ("set", "fset", "SS", "SF"):
             out = sorted(out, key=_skey)          # elements are hashable: no labels inside, order by value
         return {"k": k, "id": lab, "keys": keys, "items": out}
 
@@ -890,7 +959,28 @@ def fix_set_of(ty):
     return ty
 
 
+def subify(rng, v, p, nt=0.1):
+    """turn containers of a value into instances of user subclasses (class SL(list), ST(tuple), a namedtuple, ...)"""
+    if not isinstance(v, dict) or "k" not in v:
+        return v
+    v = dict(v, items=[subify(rng, x, p, nt) for x in v.get("items", [])])
+    if rng.random() < p:
+        k = {"list": "SL", "tuple": "ST", "set": "SS", "fset": "SF", "dict": "SD", "deque": "SQ"}.get(v["k"])
+        if k == "ST" and len(v["items"]) == 2 and rng.random() < nt:
+            k = "NT"
+        if k:
+            v["k"] = k
+    return v
+
+
 def g_default(rng, ty, tagc):
+    d = g_default0(rng, ty, tagc)
+    if d and isinstance(d.get("val"), dict) and rng.random() < 0.3:
+        d["val"] = subify(rng, d["val"], 0.5, nt=0.06)
+    return d
+
+
+def g_default0(rng, ty, tagc):
     r = rng.random()
     if r < 0.22:
         return None
@@ -943,7 +1033,10 @@ def g_input(rng, env, k, depth=0, p_provide=0.55, junk=0.06):
     for f in fields_of(env, k):
         if rng.random() < p_provide or (f.get("default") is None and rng.random() < 0.85):
             keys.append(f["name"])
-            items.append(expand_data(rng, g_value(rng, f["ty"], 0, junk), env, depth))
+            v = g_value(rng, f["ty"], 0, junk)
+            if rng.random() < 0.08:
+                v = subify(rng, v, 0.4, nt=0.3)
+            items.append(expand_data(rng, v, env, depth))
     if rng.random() < 0.05:
         keys.append("zzz")
         items.append(1)
@@ -1150,6 +1243,14 @@ def g_case(rng, maxops=7, p_fresh=0.03):
             results.append((nroots, src[1], src[2]))
             nroots += 1
     case = {"env": env, "ops": ops}
+    # running options whose force_default is a (nested, maybe subclassed) container shared by every parse that uses them
+    calls = [op for op in ops if op["op"] == "call" and op.get("ropt") is not None]
+    if calls and rng.random() < 0.5:
+        case["fpool"] = [subify(rng, g_free(rng, 1), 0.3, nt=0.0) for _ in range(rng.randint(1, 2))]
+        case["fpool"] = [v if isinstance(v, dict) else node("list", [v]) for v in case["fpool"]]
+        for op in calls:
+            if rng.random() < 0.6:
+                op["ropt"] = {"force_ref": rng.randrange(len(case["fpool"])), "data_first_search": rng.random() < 0.5}
     if rng.random() < p_fresh:
         case["fresh_interp"] = True
     return case
@@ -1282,7 +1383,8 @@ class C19(Check):
         return [g_case(rng, 12, 0.02) for _ in range(n)]
 
     def model_line(self, case):
-        return {"env": case["env"], "ops": case["ops"], "legacy_copy": bool(case.get("legacy_copy"))}
+        return {"env": case["env"], "ops": case["ops"], "fpool": case.get("fpool", []),
+                "legacy_copy": bool(case.get("legacy_copy"))}
 
     def compare(self, case, io, mo):
         if not isinstance(mo, dict) or "outs" not in mo:
